@@ -1,8 +1,9 @@
-(* C04 - every operation terminates; losing the connection fails all pending work. Pinned statements only. [acct] is the accounting invariant (every empty one-shot / open item channel has a live sender: a queued request, a routing entry or a running driver); it holds after every history of proper events (reachable_acct), so once the driver has ended - for whichever cause (c04_end_causes) - no reply channel is empty and no item channel is open (c04_no_pending_after_end): every poll completes with the delivered value or an error (c04_poll_completes, c04_stream_next_completes), later operations fail at once (c04_later_ops_fail), Unbind ends the repaired driver (c04_unbind_ends_driver). *)
+(* C04 - every operation terminates; losing the connection fails all pending work. Pinned statements only. [acct] is the accounting invariant (every empty one-shot / open item channel has a live sender: a queued request, a routing entry or a running driver); it holds after every history of proper events (reachable_acct), so once the driver has ended - for whichever cause (c04_end_causes) - no reply channel is empty and no item channel is open (c04_no_pending_after_end): every poll completes with the delivered value or an error (c04_poll_completes, c04_stream_next_completes), later operations fail at once (c04_later_ops_fail), Unbind ends the repaired driver (c04_unbind_ends_driver). The StartTLS exchange of connection establishment is one single-operation turn of the driver (SingleOp.v, every schedule of its select! branches): when it hands the connection back the response has been delivered, it returns once the transport has ended, so the establishment never strands its caller (c04_starttls_*; F18 and its completion F23). *)
 From RecordUpdate Require Import RecordUpdate.
 From Coq Require Import List ZArith NArith Lia Bool Arith.
 From Coq.Strings Require Import Byte.
-From L3 Require Import Msgid Conn ConnProofs ConnAccount ConnLin2 ConnC04 ConnNoWrap ConnFinal.
+From L3 Require Import Msgid Conn ConnProofs ConnAccount ConnLin2 ConnC04 ConnNoWrap ConnFinal SingleOp.
+From L3 Require Tls.
 Import ListNotations.
 
 Theorem c04_invariant_reachable : forall (f : fixes) (evs : list ev), Forall proper evs -> acct (run f evs).
@@ -35,6 +36,21 @@ Theorem c04_delivered_survives : forall (f : fixes) (evs more : list ev) (o : na
 Proof. exact ConnFinal.c04_delivered_survives. Qed.
 
 
+Theorem c04_single_turn_ok_means_delivered : forall evs : list sev, ret (srun V23 evs) = RetOk -> deliv (srun V23 evs) = true.
+Proof. exact SingleOp.c04_single_turn_ok_means_delivered. Qed.
+
+Theorem c04_single_turn_returns_when_transport_ends : forall (v : sver) (evs : list sev), In Eof evs \/ In RdErr evs -> ret (srun v evs) <> Going.
+Proof. exact SingleOp.c04_single_turn_returns_when_transport_ends. Qed.
+
+Theorem c04_starttls_exchange_terminates : forall evs : list sev, In Eof evs \/ In RdErr evs -> caller_sees (srun V23 evs) = SFails \/ caller_sees (srun V23 evs) = SHasResponse.
+Proof. exact SingleOp.c04_starttls_exchange_terminates. Qed.
+
+Theorem c04_starttls_establishment_returns : forall (c : Tls.cfg) (s : Tls.server), Tls.result (Tls.establish true c s) <> Tls.NeverReturns.
+Proof. exact Tls.c04_starttls_establishment_returns. Qed.
+
+Theorem c04_refuted_F23 : caller_sees (srun V18 [Eof]) = SNever /\ caller_sees (srun V18 [Msg false; TakeOp true; Msg true]) = SNever /\ caller_sees (srun V18 [Other]) = SNever.
+Proof. exact SingleOp.c04_refuted_F23. Qed.
+
 Print Assumptions c04_invariant_reachable.
 Print Assumptions c04_no_pending_after_end.
 Print Assumptions c04_poll_completes.
@@ -44,3 +60,8 @@ Print Assumptions c04_end_causes.
 Print Assumptions c04_ended_stays_ended.
 Print Assumptions c04_unbind_ends_driver.
 Print Assumptions c04_delivered_survives.
+Print Assumptions c04_single_turn_ok_means_delivered.
+Print Assumptions c04_single_turn_returns_when_transport_ends.
+Print Assumptions c04_starttls_exchange_terminates.
+Print Assumptions c04_starttls_establishment_returns.
+Print Assumptions c04_refuted_F23.
